@@ -104,7 +104,7 @@ def _grid_choices():
                 yield [['i', K, 1], ['i', is_float, 0], ['a', list(vals), 0]]
 
 
-@subcheck(SUBCHECKS, 'score_matrix_definition', quick=400, thorough=6000)
+@subcheck(SUBCHECKS, 'score_matrix_definition', quick=400, thorough=6000, fuzz=3000)
 def score_matrix_definition(d, ctx):
     """the three similarity metrics as score[..., k_ref, k_est] (loop oracle),
     for (K, F, T) and flattened (K, T) masks, through every access path of the
@@ -149,7 +149,7 @@ def score_matrix_definition(d, ctx):
     ctx.nontrivial(K >= 2)
 
 
-@subcheck(SUBCHECKS, 'score_generated', quick=1500, thorough=25000)
+@subcheck(SUBCHECKS, 'score_generated', quick=1500, thorough=25000, fuzz=6000)
 def score_generated(d, ctx):
     K = d.int(1, 6)
     nlead = d.choice([0, 0, 1, 1, 2])
@@ -258,7 +258,7 @@ METRICS = ['cos', 'euclidean', 'multiply']
 ALGOS = ['greedy', 'optimal']
 
 
-@subcheck(SUBCHECKS, 'roundtrip_generated', quick=1500, thorough=25000)
+@subcheck(SUBCHECKS, 'roundtrip_generated', quick=1500, thorough=25000, fuzz=4000)
 def roundtrip_generated(d, ctx):
     K = d.int(1, 6)
     F = 2 * d.int(0, 6) + 1
